@@ -50,9 +50,10 @@ def _materialise(v):
 
 
 class _Folder:
-    def __init__(self, env, attr, itertools_name=None):
+    def __init__(self, env, attr, itertools_name=None, funcs=None):
         self.env = env
         self.attr = attr                      # name -> ast expression of a class-level binding, or None
+        self.funcs = funcs                    # name -> FunctionDef of a module-level function whose body is one `return <expression>`
         self.itn = itertools_name or (lambda f: f.attr if isinstance(f, ast.Attribute) and isinstance(f.value, ast.Name) and f.value.id == "itertools" else None)
         self.depth = 0
         self.class_scope = False
@@ -257,6 +258,8 @@ class _Folder:
                 if f.id in ("map", "filter"):
                     raise NotConstant("function argument")
                 return _materialise(_BUILTINS[f.id](*args, **kws)) if f.id in ("zip", "enumerate", "reversed", "range") else _BUILTINS[f.id](*args, **kws)
+            if isinstance(f, ast.Name) and self.funcs and f.id in self.funcs and f.id not in self.env:
+                return self._apply(self.funcs[f.id], args, kws)
             it = self.itn(f)
             if it is not None and it in _ITERTOOLS:
                 return list(itertools.islice(_ITERTOOLS[it](*args, **kws), _LIMIT))
@@ -275,23 +278,62 @@ class _Folder:
         raise NotConstant(ast.unparse(f))
 
 
-def fold(node, env=None, attr=None, itertools_name=None):
+def _apply(self, fn, args, kws):
+    """value of a call of a module-level function that only computes a value: its body is (a docstring and) one `return <expression>`
+    over its parameters and the module's constants -- the expression folded with the parameters bound to the arguments"""
+    body = [st for st in fn.body if not (isinstance(st, ast.Expr) and isinstance(st.value, ast.Constant))]
+    a = fn.args
+    if len(body) != 1 or not isinstance(body[0], ast.Return) or body[0].value is None or fn.decorator_list or a.posonlyargs or self.depth > 3000:
+        raise NotConstant(fn.name)
+    names = [x.arg for x in a.args]
+    if len(args) > len(names) and a.vararg is None:
+        raise NotConstant(f"{fn.name}: arity")
+    bound = dict(zip(names, args))
+    if a.vararg is not None:
+        bound[a.vararg.arg] = tuple(args[len(names):])
+    for x, d in zip(a.kwonlyargs, a.kw_defaults):
+        if d is not None:
+            bound.setdefault(x.arg, self.ev(d))
+    for k, v in kws.items():
+        if k in bound and k in names[:len(args)] or (k not in names and k not in [x.arg for x in a.kwonlyargs]):
+            raise NotConstant(f"{fn.name}: keyword {k}")
+        bound[k] = v
+    for x, d in zip(names[len(names) - len(a.defaults):], a.defaults):
+        if x not in bound:
+            bound[x] = self.ev(d)
+    if any(x not in bound for x in names + [y.arg for y in a.kwonlyargs]) or a.kwarg is not None:
+        raise NotConstant(f"{fn.name}: arguments")
+    inner = _Folder({**self.env, **bound}, self.attr, self.itn, self.funcs)
+    inner.depth = self.depth + 50
+    return _materialise(inner.ev(body[0].value))
+
+
+_Folder._apply = _apply
+
+
+def fold(node, env=None, attr=None, itertools_name=None, funcs=None):
     """value of the expression, or raise NotConstant"""
     try:
-        return _materialise(_Folder(dict(env or {}), attr, itertools_name).ev(node))
+        return _materialise(_Folder(dict(env or {}), attr, itertools_name, funcs).ev(node))
     except RecursionError:
         raise NotConstant("recursion")
 
 
-def run(stmts, env=None, attr=None, itertools_name=None):
+def run(stmts, env=None, attr=None, itertools_name=None, funcs=None):
     """environment after the assignment statements among `stmts` (top level, in order); a target whose value cannot be folded is
-    removed from the environment (unknown from there on); other statements that bind a name make it unknown as well"""
+    removed from the environment (unknown from there on); other statements that bind a name make it unknown as well.
+    `funcs` (a dict, filled on the way): the functions defined among `stmts` so far -- calls of those that only compute a value
+    (`def layout(*lines): return "\n".join(lines)`) are folded."""
     env = dict(env or {})
     for st in stmts:
+        if funcs is not None and isinstance(st, ast.FunctionDef):
+            funcs[st.name] = st
+            env.pop(st.name, None)
+            continue
         if isinstance(st, ast.Assign) and len(st.targets) == 1:
             names = [x.id for x in ast.walk(st.targets[0]) if isinstance(x, ast.Name) and isinstance(x.ctx, ast.Store)]
             try:
-                v = fold(st.value, env, attr, itertools_name)
+                v = fold(st.value, env, attr, itertools_name, funcs)
                 new = dict(env)
                 _Folder(env, attr)._bind(st.targets[0], v, new)
                 env = new
